@@ -549,7 +549,7 @@ PROPS["C07"]["bounds"] += "; plus the C06 post-processing harness (2 assets, one
 
 
 # the retry bound of archive() for small and large budgets belongs to C06 (and is run by C02 as well)
-_rb = {"pkg": AR, "func": "VerifH_C06_retry_bound", "models": ARCH_MODELS, "replay_timeout_s": 120, "opts": {"max_steps": 50000000, "unwind": 70000},
+_rb = {"pkg": AR, "func": "VerifH_C06_retry_bound", "models": ARCH_MODELS, "replay_timeout_s": 200, "opts": {"max_steps": 50000000, "unwind": 70000},
        "covers": ["retries-exhausted", "large-retry-budget"]}
 PROPS["C06"]["harnesses"].append(dict(_rb))
 PROPS["C06"]["bounds"] += "; archive() retry loop: max-retry in {0,1,3,6,7} with every attempt failing as a transport error, 503 or 429"
